@@ -111,10 +111,212 @@ def trace_word_shape(ctx, g):
     ctx.ob("T9-trace-word", b.name, "rewrite", "ok" if not bad else "violation", "result *= word(p, g); p := ct.get(p, g) for every letter of w, from row `point`" if not bad else bad)
 
 
+def _fw_reduce(w):
+    out = []
+    for x in w:
+        if out and out[-1] == -x:
+            out.pop()
+        elif x != 0:
+            out.append(x)
+    return out
+
+
+def exact_guards(ctx, g):
+    """stabilizer.rs on value tables.  (1) Schreier generators are looked for at EVERY letter: the pipeline (1..=nr_gens).flat_map(|i| [i, -i]) is
+    interpreted for 3 generators and must give each of +-1, +-2, +-3 once.  (2) rewritten relators are kept exactly when non-empty (guard on a length
+    table).  (3) the word solved for the single unlabelled edge of a relator walk: with r = u h v read from the walk's start and the unlabelled
+    occurrence of h at position i, the word stored is the one that makes the walk trivial, word(h) = (v u)^-1 - decided by evaluating
+    (r.rotated(i + 1) * -h).inverse() on sample words with a reference model of rotated / * / inverse (these are tied to the crate by C10).
+    (4) the single cut is cuts[0]"""
+    ctx.clauses.append("stabilizer: all letters +-1..+-n searched for Schreier generators; rewritten relators kept iff non-empty; the word solved for a single unlabelled edge makes the relator walk trivial (evaluated on sample words); cuts[0] (T4)")
+    b = ctx.body(S + "stabilizer")
+    ctx.scan(ctx.facts.with_closures(b.name))
+    ct = ("param", 3, b.debug.get(3, ""))
+    bad = None
+    fms = [strip(norm(b.origin(t["args"][0]), g)) for bi, t in b.calls("Iterator::flat_map")] + \
+          [("call", "std::iter::Iterator::flat_map", tuple(strip(norm(b.origin(x), g)) for x in t["args"])) for bi, t in b.calls("Iterator::flat_map")]
+    pipes = [x for x in fms if is_call(x, "Iterator::flat_map")]
+    if len(pipes) != 1:
+        bad = "the letters are not produced by one flat_map over the generators"
+    else:
+        src, clo = pipes[0][2][0], pipes[0][2][1]
+        ng = [y for y in subterms(src) if isinstance(y, tuple) and y and ((y[0] == "call" and y[1].endswith("nr_gens")) or (y[0] == "field" and y[2] == "nr_gens"))]
+        try:
+            items = eval_pipeline(ctx.facts, ("call", "x::collect", (src,)), g, [], {y: 3 for y in ng})
+        except PipelineError as e:
+            items = None
+            bad = "the generator range cannot be evaluated (%s)" % e
+        if items is not None:
+            letters = []
+            for k in items:
+                r_ = apply_closure(ctx.facts, clo, [("int", k)], g)
+                r_ = strip(simplify_proj(r_)) if r_ is not None else None
+                vals = [eval_term_env(unov_deep(fold_std_ops(x)), {}) for x in r_[2]] if r_ is not None and r_[0] == "agg" else [None]
+                letters += vals
+            if sorted(x for x in letters if x is not None) != [-3, -2, -1, 1, 2, 3] or None in letters:
+                bad = "for 3 generators the letters searched for Schreier generators are %s, not each of +-1, +-2, +-3 once" % letters
+    ctx.ob("T4-exact-guards", b.name, "letters +-1..+-n", "ok" if not bad else "violation", "for 3 generators: each of +-1, +-2, +-3 once" if not bad else bad)
+    bad = None
+    pushes = [(bi, strip(norm(b.origin(t["args"][1]), g))) for bi, t in b.calls("Vec::<T, A>::push")]
+    relp = [bi for bi, v in pushes if contains(v, lambda y: is_call(y, "relator_representative")) or (v[0] == "local" and any(is_call(strip(norm(d, g)), "relator_representative") for _, d in b.all_defs_origins(v[1])))]
+    if len(relp) != 1:
+        bad = "%d pushes of rewritten relators" % len(relp)
+    else:
+        tab = reach_table_by_length(b, relp[0], g)
+        if tab != {0: False, 1: True, 2: True, 5: True}:
+            bad = "rewritten relators are kept for lengths %s only (a one-letter relator kills a generator of the stabiliser: dropping it changes the group)" % (tab if tab is None else [L for L, v in tab.items() if v])
+    ctx.ob("T4-exact-guards", b.name, "subrels.push <- w.len() > 0", "ok" if not bad else "violation", "kept exactly when non-empty (lengths 0, 1, 2, 5)" if not bad else bad)
+    cb = ctx.body(S + "close_relations_in_place")
+    ctx.scan([cb])
+    bad = None
+    cp = [(bi, strip(norm(cb.origin(t["args"][1]), g))) for bi, t in cb.calls("Vec::<T, A>::push")]
+    cp = [(bi, v) for bi, v in cp if v[0] == "agg" and len(v[2]) == 3]
+    if len(cp) != 1:
+        bad = "%d pushes of (row, letter, word) cuts" % len(cp)
+    else:
+        bi, v = cp[0]
+        x_, h_, w_ = (strip(z) for z in v[2])
+        ix = as_index(h_)
+        if not ix:
+            bad = "the letter of a cut is not r[i]"
+        else:
+            r_t, i_t = ix[0], strip(ix[1])
+
+            def ev(t, env):
+                t = strip(t)
+                if t == r_t:
+                    return list(env["r"])
+                if t == i_t:
+                    return env["i"]
+                if t[0] == "int":
+                    return t[1]
+                if t[0] == "cast":
+                    return ev(t[1], env)
+                if t[0] == "field" and t[1][0] == "binop" and str(t[2]) == "0":
+                    return ev(("binop", t[1][1].replace("WithOverflow", ""), t[1][2], t[1][3]), env)
+                if t[0] == "binop" and t[1] in ("Add", "Sub"):
+                    a_, b_ = ev(t[2], env), ev(t[3], env)
+                    return None if a_ is None or b_ is None or isinstance(a_, list) or isinstance(b_, list) else (a_ + b_ if t[1] == "Add" else a_ - b_)
+                if as_index(t) and as_index(t)[0] == r_t:
+                    k = ev(as_index(t)[1], env)
+                    return None if k is None else env["r"][k]
+                if t[0] == "unop" and t[1] == "Neg" or is_call(t, "Neg::neg"):
+                    a_ = ev(t[2] if t[0] == "unop" else t[2][0], env)
+                    return None if a_ is None or isinstance(a_, list) else -a_
+                if is_call(t, "FreeWord::rotated"):
+                    w, k = ev(t[2][0], env), ev(t[2][1], env)
+                    if w is None or k is None or not w:
+                        return w
+                    k %= len(w)
+                    return _fw_reduce(w[k:] + w[:k])
+                if is_call(t, "FreeWord::inverse"):
+                    w = ev(t[2][0], env)
+                    return None if w is None else [-x for x in reversed(w)]
+                if is_call(t, "Mul::mul"):
+                    a_, b_ = ev(t[2][0], env), ev(t[2][1], env)
+                    if a_ is None or b_ is None:
+                        return None
+                    return _fw_reduce((a_ if isinstance(a_, list) else [a_]) + (b_ if isinstance(b_, list) else [b_]))
+                if is_call(t, "Clone::clone"):
+                    return ev(t[2][0], env)
+                return None
+            n = 0
+            for r in ([1, 2, 3], [1, 2, -3, 2], [2, 2, 2], [1, 2, 1, 2, 1, 2], [3, -1, 2, 2, 1]):
+                for i in range(len(r)):
+                    got = ev(w_, {"r": r, "i": i})
+                    rest = r[i + 1:] + r[:i]
+                    want = _fw_reduce([-x for x in reversed(rest)])
+                    n += 1
+                    if got is None:
+                        bad = bad or "the word stored with a cut cannot be evaluated: %s" % show(w_, 1)[:70]
+                    elif got != want:
+                        bad = bad or "for the relator %s with its unlabelled edge at position %d the word stored is %s; the one that closes the walk is %s (inverse of the rest of the relator read after that letter)" % (r, i, got, want)
+            if not bad and n == 0:
+                bad = "nothing evaluated"
+    ctx.ob("T4-exact-guards", cb.name, "word of the cut edge", "ok" if not bad else "violation", "word(h) = (rest of the relator after h, cyclically)^-1 on 5 sample relators at every position" if not bad else bad)
+    bad = None
+    lens = [(bi, a) for bi, t in cb.calls("Index::index") for a in [[strip(norm(cb.origin(x), g)) for x in t["args"]]] if a[0][0] == "local" and "Vec<(usize, isize" in cb.local_ty(a[0][1])]
+    if len(lens) != 1 or eval_int(lens[0][1][1]) != 0:
+        bad = "the single cut is not read as cuts[0]: %s" % [show(a[1], 1) for _, a in lens]
+    ctx.ob("T4-exact-guards", cb.name, "cuts[0]", "ok" if not bad else "violation", "under cuts.len() == 1 the cut read is cuts[0]" if not bad else bad)
+
+
+def base_constants(ctx, g):
+    """row 0 is the base row everywhere: coset_representative starts its search and its word table at row 0 (empty word); induced_table numbers the
+    start state 0 in both directions; intersection_table marks unvisited pairs with -1, numbers the base pair (0, 0) as 0, queues it, tests `visited`
+    as entry < 0 exactly (0 is a valid number), and reads / writes the pair components in one order: (a, b) = n2o[i], images (ta.get(a, g), tb.get(b, g)),
+    stored and queued as (ag, bg)"""
+    ctx.clauses.append("base row 0 in coset_representative / induced_table / intersection_table; unvisited pairs are exactly the entries < 0; pair components in one order (T4)")
+    C = "fpgroups::cosets::"
+    lit = lambda t: map_term(t, lambda y: None)
+    b = ctx.body(C + "coset_representative")
+    froms = [strip(norm(b.origin(t["args"][0]), g)) for bi, t in b.calls("From::from")]
+    ok = ("agg", "array", (("int", 0),)) in froms and any(f[0] == "agg" and f[1] == "array" and len(f[2]) == 1 and strip(f[2][0])[0] == "agg" and eval_int(strip(f[2][0])[2][0]) == 0 and is_call(strip(strip(f[2][0])[2][1]), "FreeWord::empty") for f in froms)
+    ctx.ob("T4-base-constants", b.name, "queue = [0], words = {0: empty}", "ok" if ok else "violation",
+           "the search for representatives starts at row 0 with the empty word" if ok else "coset_representative does not start from row 0 with the empty word: %s" % [show(f, 1)[:40] for f in froms])
+    b = ctx.body(C + "induced_table")
+    froms = [strip(norm(b.origin(t["args"][0]), g)) for bi, t in b.calls("From::from")]
+    def pair(f):
+        return [strip(z) for z in strip(f[2][0])[2]] if f[0] == "agg" and f[1] == "array" and len(f[2]) == 1 and strip(f[2][0])[0] == "agg" and len(strip(f[2][0])[2]) == 2 else None
+    ps = [pair(f) for f in froms if pair(f)]
+    ok = len(ps) == 2 and any(eval_int(p[0]) == 0 and eval_int(p[1]) is None for p in ps) and any(eval_int(p[1]) == 0 and eval_int(p[0]) is None for p in ps)
+    ctx.ob("T4-base-constants", b.name, "o2n = {start: 0}, n2o = {0: start}", "ok" if ok else "violation",
+           "the start state is number 0 in both maps" if ok else "induced_table does not number its start state 0 in both directions: %s" % [[show(z, 1)[:20] for z in p] for p in ps])
+    b = ctx.body(C + "intersection_table")
+    ctx.scan([b])
+    ta, tb = ("param", 1, b.debug.get(1, "")), ("param", 2, b.debug.get(2, ""))
+    bad = None
+    fills = [[strip(norm(b.origin(x), g)) for x in t["args"]] for bi, t in b.calls("vec::from_elem")]
+    inner = [f for f in fills if eval_int(f[0]) is not None]
+    stores = []
+    for bi, si, s in b.assigns():
+        if [e["k"] for e in s["place"]["p"]] == ["deref"]:
+            tgt = strip(norm(b.local_origin(s["place"]["l"]), g))
+            if is_call(tgt, "IndexMut::index_mut") and is_call(strip(tgt[2][0]), "IndexMut::index_mut"):
+                stores.append((bi, strip(strip(tgt[2][0])[2][1]), strip(tgt[2][1]), strip(norm(b.rv_origin(s["rv"]), g))))
+    pushes = [(bi, strip(norm(b.origin(t["args"][1]), g))) for bi, t in b.calls("Vec::<T, A>::push")]
+    base_store = [x for x in stores if eval_int(x[1]) == 0 and eval_int(x[2]) == 0 and eval_int(x[3]) == 0]
+    base_push = [x for x in pushes if x[1] == ("agg", "tuple", (("int", 0), ("int", 0)))]
+    new_store = [x for x in stores if x not in base_store]
+    new_push = [x for x in pushes if x not in base_push]
+    if not (len(inner) == 1 and eval_int(inner[0][0]) == -1):
+        bad = "the pair table is not filled with -1 (= not visited)"
+    elif len(base_store) != 1 or len(base_push) != 1:
+        bad = "the base pair (0, 0) is not numbered 0 and queued first"
+    elif len(new_store) != 1 or len(new_push) != 1:
+        bad = "a new pair is not numbered and queued once"
+    else:
+        sb_, ag, bg, val = new_store[0]
+        ga = [strip(y) for y in strip(ag[2][0])[2]] if is_call(ag, "Option::<T>::unwrap") and is_call(strip(ag[2][0]), "CosetTable::get") else None
+        gb_ = [strip(y) for y in strip(bg[2][0])[2]] if is_call(bg, "Option::<T>::unwrap") and is_call(strip(bg[2][0]), "CosetTable::get") else None
+        if not (ga and gb_ and ga[0] == ta and gb_[0] == tb and ga[2] == gb_[2]):
+            bad = "the pair table is not indexed by (ta.get(a, g), tb.get(b, g))"
+        elif not (ga[1][0] == "field" and gb_[1][0] == "field" and ga[1][2] == "0" and gb_[1][2] == "1" and ga[1][1] == gb_[1][1]):
+            bad = "the components of the pair read from the queue are not used in order: first with ta, second with tb"
+        elif new_push[0][1] != ("agg", "tuple", (ag, bg)):
+            bad = "the new pair is not queued as (ag, bg)"
+        elif not (val[0] == "cast" and is_call(strip(val[1]), "CosetTable::len")) and not is_call(val, "CosetTable::len"):
+            bad = "a new pair is not numbered table.len()"
+        else:
+            ent = ("call", "std::ops::Index::index", (("call", "std::ops::Index::index", (strip(norm(b.local_origin(0), g)), ag)), bg))
+            for ev_, want in ((-1, True), (0, False), (4, False)):
+                def val_(y, ev_=ev_):
+                    a = as_index(y)
+                    if a and strip(a[1]) == bg and as_index(a[0]) and strip(as_index(a[0])[1]) == ag:
+                        return ev_
+                    return None
+                r = reachable_sites(b, g, {sb_}, val_)
+                if (sb_ in r) != want:
+                    bad = bad or "a pair whose table entry is %d is %s as new (entries >= 0 are numbers of visited pairs, 0 included)" % (ev_, "treated" if sb_ in r else "not treated")
+    ctx.ob("T4-base-constants", b.name, "pairs", "ok" if not bad else "violation", "fill -1; (0, 0) -> 0 queued first; new iff entry < 0; (a, b) / (ta, tb) / (ag, bg) in one order" if not bad else bad)
+
+
 def run(ctx):
     g = ctx.facts.getters()
     first_letter_guarded(ctx, g)
     trace_word_shape(ctx, g)
+    exact_guards(ctx, g)
+    base_constants(ctx, g)
     stab(ctx, g)
     close_rel(ctx, g)
     tree(ctx, g)
